@@ -138,6 +138,19 @@ def run(ctx):
             okcol = bool(crop2) and all(cs.edge_dominates(c["block"], ctx_edge, b) for b in crop2)
         ctx.check(okcol, "COLUMN", "C17:COLUMN:error-line-keeps-prefix", "the error line is never cropped on the left when the window is stored (%d two-sided crop site(s), all on the context-line edge)" % len(crop2),
                   "crop_source_window applies the two-sided crop to the error line as well: the stored line starts with `…` + a suffix while rendering still indexes it with the original column — the caret sits under the wrong character or the snippet is dropped", config, ctx.where(cs, crop2[0] if crop2 else None))
+        # ---- UNITS: columns are characters, slice bounds are bytes.  The right-hand cut of the stored error line is a byte
+        # offset obtained from a column through col_to_byte_offset_in_line, never a column used as a byte offset.
+        cuts = []
+        for b, t in cs.calls():
+            if str(t["f"].get("trait")) in ("std::ops::Index", "std::ops::IndexMut") and len(t["args"]) == 2:
+                with cs.deep():
+                    base = render(cs.sym_operand(t["args"][0]))
+                    idx = cs.sym_operand(t["args"][1])
+                if idx[0] == "aggr" and "RangeTo" in str(idx[1]) and any(cs.edge_dominates(c["block"], (c["t"] if c["op"] == "Eq" else c["f"]), b) for c in rowcmp):
+                    cuts.append((b, idx))
+        okcut = bool(cuts) and all(sym_contains(idx, lambda x: x[0] == "call" and x[1] == "de_snipped::col_to_byte_offset_in_line") for b, idx in cuts)
+        ctx.check(okcut, "COLUMN", "C17:COLUMN:error-line-cut-in-bytes-from-columns", "the error line's right-hand cut converts the column to a byte offset (%d site(s))" % len(cuts),
+                  "crop_source_window cuts the stored error line at a byte offset that was not obtained from the column by col_to_byte_offset_in_line: with multi-byte text left of the error the line is cut before the reported column and the snippet is dropped", config, ctx.where(cs, cuts[0][0] if cuts else None))
         # ---- miette adapter
         if any(f.file.endswith("miette.rs") for f in fx.fns.values()):
             rule_miette(ctx, fx, config)
